@@ -9,6 +9,7 @@ level_note="Trusted: Coq kernel, extraction, the Go harness (recording doubles, 
 stages=[
     dict(name="strings", harness="c12", oracle="C12", args=["-stage", "strings"]),
     dict(name="serve", harness="c12", oracle="C12", args=["-stage", "serve"]),
+    dict(name="discovery", harness="c12", oracle="C12", args=["-stage", "discovery"]),
 ],
 rule="strings: path.Clean on every string over {'/','.','a'} up to length 8 (quick) / 10 (thorough), strings.Split/TrimSuffix/HasPrefix/TrimPrefix and the real resourceTypeAtPath (both packages, 7 prefixes) on the shorter ones, plus seeded random strings with %, space, non-ASCII, '..x'; serve: prefixes of 0-2 segments (quick; plus a seeded sample of 3-segment ones; thorough: all 0-3) from {dav,'a b',%41,e-acute,x.y,..x} in both spellings x 2 servers x 2 name sets x 11 rest paths (own / foreign / missing resources at depths 0-5) x trailing slash x 19 request kinds (every verb; PUT/MKCOL/REPORT variants; PROPFIND Depth 0/1/infinity), plus /.well-known and out-of-quantifier paths (model faithfulness only) and seeded random layouts with 0-3 collections x 0-3 objects; non-trivial = inside the quantifier (strings: level >= 1); distinct = by digest of the input S-expression",
 exhaustive=True,
